@@ -2999,3 +2999,189 @@ def asn1_pairing(ctx, mir, stats):
         obs.append({"id": "asn1:%s:entry-point" % f.name, "ok": ok, "functions": [f.name], "where": f.name, "needs_native": True, "native": None if ok else ASN1_NATIVE,
                     "detail": "%s goes through yasna::%s" % (f.name, re.search(r"(construct|parse)_\w+", callee).group(0)) if ok else "%s calls %s" % (f.name, hits)})
     return obs
+
+
+# --------------------------------------------------------------------------
+# C04: length / count fields of the session emitters (share control, share data, confirm active, capability set)
+# --------------------------------------------------------------------------
+EMIT_NATIVE = _native("verif_replay_emitter_lengths", "src/core/global.rs", """
+        let le16 = |b: &[u8], o: usize| b[o] as usize | (b[o + 1] as usize) << 8;
+        for n in [0usize, 1, 2, 5, 6, 18, 100, 255, 256, 1000, 4000].iter() {
+            let body = vec![0x5a_u8; *n];
+            // share control header: totalLength is the size of the whole PDU
+            let b = to_vec(&share_control_header(Some(PDUType::PdutypeDatapdu), Some(1007), Some(body.clone())));
+            assert_eq!(b.len(), n + 6, "share control header is not 6 bytes");
+            assert_eq!(le16(&b, 0), b.len(), "totalLength for a {}-byte message", n);
+            // share data header: uncompressedLength = payload + 18 (share control header + share data header), payload follows 12 bytes of header
+            let b = to_vec(&share_data_header(Some(0x10203), Some(PDUType2::Pdutype2Input), Some(body.clone())).message);
+            assert_eq!(b.len(), n + 12, "share data header is not 12 bytes");
+            assert_eq!(le16(&b, 6), n + 18, "uncompressedLength for a {}-byte payload", n);
+            // what a reader of the same layouts announces for the variable part
+            let mut c = share_control_header(None, None, None);
+            c.read(&mut Cursor::new(to_vec(&share_control_header(Some(PDUType::PdutypeDatapdu), Some(1007), Some(body.clone()))))).unwrap();
+            assert_eq!(cast!(DataType::Slice, c["pduMessage"]).unwrap().len(), *n, "share control header read back");
+            let mut d = share_data_header(None, None, None).message;
+            d.read(&mut Cursor::new(to_vec(&share_data_header(Some(1), Some(PDUType2::Pdutype2Input), Some(body.clone())).message))).unwrap();
+            assert_eq!(cast!(DataType::Slice, d["payload"]).unwrap().len(), *n, "share data header read back");
+        }
+        // capability sets: lengthCapability covers the 4-byte header and the body
+        let caps = || vec![capability::ts_general_capability_set(Some(0)), capability::ts_bitmap_capability_set(Some(24), Some(800), Some(600)), capability::ts_order_capability_set(Some(0)),
+                           capability::ts_pointer_capability_set(), capability::ts_brush_capability_set(), capability::ts_virtualchannel_capability_set()];
+        let mut total = 0;
+        let mut sets = trame![];
+        let mut count = 0;
+        for c in caps() {
+            let b = to_vec(&capability_set(Some(c)));
+            assert_eq!(le16(&b, 2), b.len(), "lengthCapability");
+            total += b.len();
+            count += 1;
+        }
+        for c in caps() { sets.push(Box::new(capability_set(Some(c)))); }
+        // confirm active: lengthSourceDescriptor, lengthCombinedCapabilities (= numberCapabilities + pad + sets), numberCapabilities
+        for name in [&b""[..], &b"x"[..], &b"rdp-rs"[..], &[0x41u8; 200][..]].iter() {
+            let b = to_vec(&ts_confirm_active_pdu(Some(0x10203), Some(name.to_vec()), Some(Array::from_trame(std::mem::replace(&mut sets, trame![])))).message);
+            for c in caps() { sets.push(Box::new(capability_set(Some(c)))); }
+            assert_eq!(le16(&b, 6), name.len(), "lengthSourceDescriptor");
+            assert_eq!(le16(&b, 8), total + 4, "lengthCombinedCapabilities");
+            assert_eq!(&b[10..10 + name.len()], &name[..], "sourceDescriptor");
+            assert_eq!(le16(&b, 10 + name.len()), count, "numberCapabilities");
+            assert_eq!(b.len(), 10 + name.len() + 4 + total, "confirm active size");
+        }""")
+
+EMITTERS = [
+    # function, count field, described field, fixed bytes the count includes besides the described field, how the count is obtained
+    (r"^share_control_header$", "totalLength", "pduMessage", 6, "length", "totalLength covers the 6-byte share control header and the message"),
+    (r"^share_data_header$", "uncompressedLength", "payload", 18, "length", "uncompressedLength covers the share control header (6), the share data header (12) and the payload"),
+    (r"^ts_confirm_active_pdu$", "lengthSourceDescriptor", "sourceDescriptor", 0, "length", "lengthSourceDescriptor is the size of sourceDescriptor"),
+    (r"^ts_confirm_active_pdu$", "lengthCombinedCapabilities", "capabilitySets", 4, "length", "lengthCombinedCapabilities covers numberCapabilities, pad2Octets and the capability sets"),
+    (r"^ts_confirm_active_pdu$", "numberCapabilities", "capabilitySets", 0, "count", "numberCapabilities is the number of capability sets"),
+    (r"^capability_set$", "lengthCapability", "capabilitySet", 4, "length", "lengthCapability covers the 4-byte capability header and the body"),
+]
+
+
+def emitter_call_model(se, path, t, args):
+    f = t["func"]
+    if re.search(r" as Message>::length$", f) and len(t["args"]) == 1:
+        a = re.sub(r"^(move|copy) ", "", t["args"][0]).strip()
+        tgt = path.env.get("&" + a, a)
+        key = "len(" + str(tgt) + ")"
+        if key not in path.env:
+            path.env[key] = se.fresh(key, "usize")
+        return path.env[key]
+    return None
+
+
+def emitter_lengths(ctx, mir, stats):
+    """E3: each emitter is executed symbolically with the length of the variable part as a free 64-bit symbol L. For every L up to the
+    stated bound: the count written equals L + K (K = the fixed bytes the specification includes in the count); the size the same layout
+    announces to a reader for the variable field equals L; the announced field is the described field; the arithmetic cannot overflow."""
+    from z3 import z3util
+    obs = []
+    for fn_re, cfield, dfield, K, via, what in EMITTERS:
+        f = find_fn(mir, fn_re)
+        oid = "%s:%s" % (f.name, cfield)
+        se = SymExec(f, stats, call_model=emitter_call_model, max_paths=3000).run()
+        if not se.finished:
+            raise Inconclusive("ENCODING-FAILED: %s has no completed path" % f.name)
+        p = se.finished[0]
+        ins = calls_on(p.events, r"IndexMap::<String, Box<dyn Message>>::insert$")
+        keyed = {}
+        for i, e in ins:
+            m = re.search(r'const "(\w+)"', resolve_source(p.events, i, e[4][1], depth=6))
+            if m:
+                keyed[m.group(1)] = (i, e)
+        if cfield not in keyed or dfield not in keyed:
+            obs.append({"id": oid + ":fields", "ok": False, "functions": [f.name], "where": f.name, "needs_native": True, "native": EMIT_NATIVE, "detail": "fields %s / %s not found in %s" % (cfield, dfield, f.name)})
+            continue
+        i, e = keyed[cfield]
+        prev = max([j for j, _ in ins if j < i] + [0])
+        u = [x for x in p.events[prev:i] if x[0] == "assign" and x[3].startswith("Value::<u16>::LE(")]
+        v = se.operand(p, u[-1][3][len("Value::<u16>::LE("):-1]) if u else None
+        if v is None:
+            obs.append({"id": oid + ":count", "ok": False, "functions": [f.name], "where": f.name, "needs_native": True, "native": EMIT_NATIVE, "detail": "%s is not built from a U16::LE value (not recognised)" % cfield})
+            continue
+        lens = [x for x in z3util.get_vars(v) if str(x).startswith("len(")]
+        if len(lens) != 1:
+            obs.append({"id": oid + ":count", "ok": False, "functions": [f.name], "where": f.name, "needs_native": True, "native": EMIT_NATIVE,
+                        "detail": "%s = %s does not depend on exactly one measured length (%s)" % (cfield, z3.simplify(v), [str(x) for x in lens])})
+            continue
+        L = lens[0]
+        # which object was measured, and which object is sent as the described field
+        recv = None
+        for k, ev in enumerate(p.events):
+            if ev[0] == "callret" and ev[3] is not None and z3.is_expr(ev[3]) and ev[3].eq(L):
+                call = p.events[k - 1]
+                recv = resolve_source(p.events, k, call[4][0], depth=10)
+        j, e2 = keyed[dfield]
+        sent = resolve_source(p.events, j, e2[4][2], depth=10)
+        inner = re.match(r"^CALL Box::<.*?>::new\((.*)\)$", sent)
+        sent_obj = inner.group(1) if inner else sent
+        tv = re.match(r"^CALL to_vec\((.*)\)$", sent_obj)
+        if tv:
+            sent_obj = tv.group(1)
+        if via == "count":
+            ar = re.match(r"^CALL data::Array::<.*?>::inner\((.*)\)$", recv or "")
+            recv_obj = ar.group(1) if ar else None
+        else:
+            recv_obj = recv
+        linked = recv_obj is not None and recv_obj == sent_obj
+        obs.append({"id": oid + ":measures-what-is-sent", "ok": linked, "functions": [f.name], "where": f.name, "needs_native": True, "native": None if linked else EMIT_NATIVE,
+                    "detail": "%s is computed from the %s of the object sent as `%s`" % (cfield, "element count" if via == "count" else "length", dfield) if linked else
+                    "%s measures `%s` but `%s` sends `%s`" % (cfield, (recv_obj or recv or "?")[:120], dfield, sent_obj[:120])})
+        bound = 65535 - K
+        rng = z3.ULE(L, z3.BitVecVal(bound, 64))
+        verdict, mdl, smt = se.check(p, [rng, v != z3.Extract(15, 0, L + z3.BitVecVal(K, 64))], "count value")
+        cvc5_check(smt, verdict, stats)
+        obs.append({"id": oid + ":value", "ok": verdict == "unsat", "functions": [f.name], "where": f.name, "cex": mdl, "needs_native": False, "native": None if verdict == "unsat" else EMIT_NATIVE,
+                    "detail": "for every %s of 0..%d: %s = it + %d (%s)" % ("count" if via == "count" else "length", bound, cfield, K, what) if verdict == "unsat" else
+                    "%s is not the described size + %d: %s (%s)" % (cfield, K, mdl, what)})
+        for (ap, bname, msg, cond, text) in se.asserts:
+            if cond is None:
+                continue
+            if not any(x.eq(L) for x in z3util.get_vars(cond)):
+                continue
+            verdict, mdl, smt = se.check(ap, [rng, z3.Not(cond)], "emitter arithmetic")
+            obs.append({"id": oid + ":no-overflow@" + bname, "ok": verdict == "unsat", "functions": [f.name], "where": f.name + " " + bname, "cex": mdl, "needs_native": False,
+                        "detail": "`%s` cannot fail for a described size of 0..%d" % (msg, bound) if verdict == "unsat" else "`%s` fails for %s" % (msg, mdl)})
+        if via == "count":
+            continue
+        # the closure attached to the count field: Size(<described field>, g(count)) with g(count(L)) == L
+        src = resolve_source(p.events, i, e[4][2], depth=10)
+        cm = re.search(r"\{closure@([^}]*)\}", src)
+        g = next((x for x in mir if cm and "{closure" in x.name and cm.group(1) in (x.locals.get("_1", ""))), None)
+        if g is None:
+            obs.append({"id": oid + ":announce", "ok": False, "functions": [f.name], "where": f.name, "needs_native": True, "native": EMIT_NATIVE, "detail": "%s carries no size announcement for `%s` (no DynOption closure found)" % (cfield, dfield)})
+            continue
+        ce = SymExec(g, stats, call_model=closure_call_model).run()
+        found = False
+        for q in ce.finished:
+            for k, ev in enumerate(q.events):
+                if ev[0] == "assign" and ev[3].startswith("MessageOption::Size("):
+                    found = True
+                    parts = split_top(ev[3][len("MessageOption::Size("):-1])
+                    nm = re.search(r'const "(\w+)"', resolve_source(q.events, k, parts[0], depth=6))
+                    okn = bool(nm) and nm.group(1) == dfield
+                    obs.append({"id": oid + ":announce-names-field", "ok": okn, "functions": [g.name], "where": g.name, "needs_native": True, "native": None if okn else EMIT_NATIVE,
+                                "detail": "the size is announced for `%s`" % dfield if okn else "the size is announced for `%s`, not `%s`" % (nm.group(1) if nm else "?", dfield)})
+                    sz = ce.operand(q, parts[1])
+                    fv = q.env.get("field.inner")
+                    if sz is None or fv is None:
+                        obs.append({"id": oid + ":announce-value", "ok": False, "functions": [g.name], "where": g.name, "needs_native": True, "native": EMIT_NATIVE, "detail": "announced size not encodable: " + ev[3]})
+                        continue
+                    comp = z3.substitute(sz, (fv, v))
+                    s = z3.Solver()
+                    for c in p.cond + q.cond:
+                        s.add(z3.substitute(c, (fv, v)))
+                    s.add(rng, comp != L)
+                    stats.queries += 1
+                    r = s.check()
+                    mdl = None
+                    if r == z3.sat:
+                        mdl = {"L": s.model().eval(L, model_completion=True).as_long(), "announced": s.model().eval(comp, model_completion=True).as_long()}
+                    cvc5_check(s.to_smt2(), "sat" if r == z3.sat else "unsat", stats)
+                    obs.append({"id": oid + ":announce-value", "ok": r == z3.unsat, "functions": [f.name, g.name], "where": g.name, "cex": mdl, "needs_native": False, "native": None if r == z3.unsat else EMIT_NATIVE,
+                                "detail": "for every described size 0..%d a reader of the same layout is told exactly that size for `%s`" % (bound, dfield) if r == z3.unsat else
+                                "a `%s` of %s bytes is written with a count for which a reader is told %s bytes" % (dfield, mdl["L"], mdl["announced"])})
+        if not found:
+            obs.append({"id": oid + ":announce", "ok": False, "functions": [g.name], "where": g.name, "needs_native": True, "native": EMIT_NATIVE, "detail": "the closure of %s produces no Size" % cfield})
+    return obs
